@@ -234,6 +234,8 @@ def parse_uint(tok, bits=64):
 
 
 def parse_addr(tok):
+    if tok.startswith("TMPL_"):
+        return ("TMPL", tok)
     try:
         if len(tok) != 58:
             raise ValueError("len")
